@@ -38,7 +38,7 @@ func clip(s string, n int) string {
 	return s
 }
 
-const traceSet = "openat,open,creat,write,pwrite64,writev,rename,renameat,renameat2,unlink,unlinkat,mkdir,mkdirat,ftruncate,truncate,fsync,fdatasync,flock,link,linkat,symlink,symlinkat,close"
+const traceSet = "openat,open,creat,write,pwrite64,writev,rename,renameat,renameat2,unlink,unlinkat,mkdir,mkdirat,ftruncate,truncate,fsync,fdatasync,flock,link,linkat,symlink,symlinkat,close,read,pread64"
 
 var lineRe = regexp.MustCompile(`^(\d+)\s+(\w+)\((.*)\)\s+=\s+(-?\d+|\?)`)
 var killedRe = regexp.MustCompile(`^(\d+)\s+\+\+\+ killed by SIGKILL \+\+\+`)
